@@ -565,12 +565,12 @@ def expectedGuards : List (GuardCtx × Nat × Nat) := [
   (.constBlock, key% "vecs::inline::InlineVec::new", key% "CAP<= TaggedU8::<SHIFT, TAG>::max ()"),
   (.constBlock, key% "vecs::inline::InlineVec::zeroed", key% "CAP != 0"),
   (.constBlock, key% "vecs::inline::InlineVec::zeroed", key% "CAP<= TaggedU8::<SHIFT, TAG>::max ()"),
-  (.constFn,    key% "vecs::inline::InlineVec::const_append", key% "len + other_len<= CAP"),
+  (.constFn,    key% "vecs::inline::InlineVec::const_append", key% "other_len<= CAP - len"),
   (.constFn,    key% "vecs::inline::InlineVec::swap_remove", key% "index<len"),
   (.constFn,    key% "vecs::inline::InlineVec::remove", key% "index<len"),
   (.constBlock, key% "vecs::inline::InlineVec::extend_from_array", key% "N<= CAP"),
   (.constFn,    key% "vecs::inline::InlineVec::extend_from_array", key% "new_len<= CAP"),
-  (.constFn,    key% "vecs::inline::InlineVec::extend_from_slice_copy", key% "new_len<= CAP")
+  (.constFn,    key% "vecs::inline::InlineVec::extend_from_slice_copy", key% "slice . len ()<= CAP - len")
 ]
 
 def guardKey (g : ConstGuard) : GuardCtx × Nat × Nat := (g.ctx, g.ownerKey, g.condKey)
